@@ -32,13 +32,19 @@ RULE = ("stacks of 1-3 sibling scopes (parentless nodes / Workflow children / ch
         "closure (data connection crossing composites: refused, not siblings) or sitting outside it, hand-made ran->run, "
         "ran->accumulate_and_run and failed->run/accumulate_and_run connections in connection order, starting nodes, automate flag, executor flags, "
         "one failing node (every node of the would-be executed set in the thorough tier), already-failed nodes / "
-        "parents; HISTORIES: the same pull 2-3 times with unchanged inputs and uncached observers wired to the target "
+        "parents, a closure node still flagged `running` without executor; HISTORIES: pull / re-wire the upstream data "
+        "(disconnect a provider, connect a new one; providers uncached) / pull again on the same objects; the same pull 2-3 times with unchanged inputs and uncached observers wired to the target "
         "and to the enclosing macros (by hand, or by automation after a run of the Workflow root); "
         "WARM histories: the target is pulled / the Workflow root run first, THEN an executor is put on a closure node "
         "and/or an upstream input changes, then the observed pull (refused as for cold nodes, nothing left running); "
         "parents, permuted labels; EVERY node of the target scope as target, with and without parent scopes. "
         "Non-trivial = the closure has at least two nodes or the pull is refused; distinct = distinct case JSON")
-TRUSTED = ["the iteration order of Python sets (closure) is not predicted: connection lists are compared as sorted "
+TRUSTED = ["a node flagged `running` (no executor) enters the model as a node that is not ready (its failed flag); the "
+           "class of its refusal (RuntimeError at the input lock / ReadinessError at the gate) is not distinguished; "
+           "inside a composite such a node makes the parent resume it by label: oracle only",
+           "histories (repeated pulls, pulls after a root run, warm-then-executor, pull / re-wire / pull) are compared "
+           "with the model on their first pull only; the later pulls are judged by the oracle",
+           "the iteration order of Python sets (closure) is not predicted: connection lists are compared as sorted "
            "sets, except in corpus cases where the order is independent of it",
            "temporary labels label+str(id) sort like the original labels (sibling labels of equal length, distinct)"]
 ASSUMPTIONS = ["the Coq model covers fresh nodes and the FIRST pull of a case (no cache hit; every node triggered at most "
@@ -352,7 +358,11 @@ def model_view(case, obs):
     for L, lvl in zip(case["levels"], obs[2]):
         rows = [r[:6] + [bool(r[6]) or (i in L.get("running", []))] for i, r in enumerate(lvl[0])]
         after.append([rows] + lvl[1:4])      # children keys and running flags are oracle-only; the model carries a
-    return [obs[0], obs[1], after]           # node that is flagged running as "not ready", like a failed one
+    res = obs[0]                             # node that is flagged running as "not ready", like a failed one
+    if res == "RuntimeError" and any(L.get("running") for L in case["levels"]) \
+            and not any(L["bad"] for L in case["levels"]):
+        res = "ReadinessError"      # it is refused at its input lock when it has data to fetch, else at the gate
+    return [res, obs[1], after]
 
 
 # ---- model term --------------------------------------------------------------------------------
